@@ -218,15 +218,36 @@ def check_documented_constructor_errors(rep: Report):
         rep.violation({"constructor": name}, f"constructor accepted: {name} (declared shape {getattr(obj, 'shape', None)})")
 
 
+def _user_dist(shape, cond_shape):
+    from flowjax.distributions import AbstractDistribution
+
+    class Summing(AbstractDistribution):
+        """log-density that would silently broadcast: -sum(x^2) (- sum(condition))."""
+        shape: tuple
+        cond_shape: tuple | None
+
+        def _log_prob(self, x, condition=None):
+            return -jnp.sum(x**2) - (0.0 if condition is None else jnp.sum(condition))
+
+        def _sample(self, key, condition=None):
+            return jr.normal(key, self.shape) + (0.0 if condition is None else jnp.sum(condition))
+
+    return Summing(shape, cond_shape)
+
+
 def check_distributions(rep: Report):
     """Distribution methods raise when trailing dimensions do not match."""
     from flowjax import distributions as ds
+    import equinox as eqx
     from flowjax.bijections import AdditiveCondition
     k = jr.PRNGKey(1)
     dists = {
         "Normal(3,)": ds.Normal(jnp.zeros(3)), "Normal(2,3)": ds.Normal(jnp.zeros((2, 3))), "StandardNormal()": ds.StandardNormal(()),
         "Transformed cond(3,|2)": ds.Transformed(ds.Normal(jnp.zeros(3)), AdditiveCondition(lambda c: c.sum(), (3,), (2,))),
         "MultivariateNormal(3)": ds.MultivariateNormal(jnp.zeros(3), jnp.eye(3)),
+        # distributions that are not Transformed: no bijection re-checks x behind the distribution's own check
+        "StandardNormal(3,)": ds.StandardNormal((3,)), "StandardNormal(2,3)": ds.StandardNormal((2, 3)),
+        "user-defined (3,)": _user_dist((3,), None), "user-defined (2,)|(3,)": _user_dist((2,), (3,)),
     }
     for name, d in dists.items():
         shape = tuple(d.shape)
